@@ -82,6 +82,76 @@ def hierarchy_law(rep: common.Report) -> int:
     return n
 
 
+SER_SRC = '''
+from dataclasses import dataclass
+from typing import Annotated, Literal, Union
+from apischema import discriminator
+
+
+@dataclass
+class Circle:
+    kind: Literal["circle", "disc"]
+    radius: int = 1
+
+
+@dataclass
+class Square:
+    side: int = 1
+
+
+@dataclass
+class Tri:
+    kind: Literal["tri"] = "tri"
+
+
+Shape = Annotated[Union[Circle, Square, Tri], discriminator("kind")]
+
+
+@discriminator("type")
+class Pet:
+    pass
+
+
+@dataclass
+class Kit(Pet):
+    type: Literal["cat", "kitten"] = "cat"
+
+
+@dataclass
+class Pup(Pet):
+    pass
+'''
+
+
+def serialization_law(rep: common.Report) -> int:
+    """The serialization side of the same law, on the real code: the image of a value under a (discriminated) union is
+    the image under the alternative it is an instance of, completed by the discriminator ONLY when the alternative does
+    not emit that key itself -- and it comes back as the same value."""
+    from apischema import deserialize, serialize
+
+    mod = types.ModuleType("verifunionser")
+    sys.modules["verifunionser"] = mod
+    exec(compile(SER_SRC, "<verifunionser>", "exec"), mod.__dict__)
+    n = 0
+    cases = [(mod.Shape, "kind", v) for v in (mod.Circle("circle", 5), mod.Circle("disc", 5), mod.Square(4), mod.Tri())] + \
+            [(mod.Pet, "type", v) for v in (mod.Kit("cat"), mod.Kit("kitten"), mod.Pup())] + \
+            [(Union[mod.Kit, mod.Pup], "type", v) for v in (mod.Kit("kitten"), mod.Pup())]
+    for tp, key, v in cases:
+        n += 1
+        try:
+            got = serialize(tp, v)
+            own = serialize(type(v), v)
+            back = deserialize(tp, got)
+        except Exception as exc:
+            rep.violation(f"serialization law: {v!r} under its union raised {type(exc).__name__}: {exc}", {"value": repr(v)})
+            continue
+        rest = {k: x for k, x in got.items() if k != key or key in own}
+        if rest != own or key not in got or back != v:
+            rep.violation(f"serialization law: serialize(<union>, {v!r}) = {got} while the alternative alone gives {own}; "
+                          f"deserialized back to {back!r}", {"value": repr(v), "union_image": got, "alternative_image": own})
+    return n
+
+
 def main() -> int:
     rep = common.Report("C13", "model_checking")
     rep.assumptions = ["reference semantics = spec/DataModel.tla (first accepting alternative; documented coercion table)",
@@ -90,6 +160,7 @@ def main() -> int:
                        "hierarchy with foreign alternatives the try-each law is checked on the real code directly"]
     engine_deser.run("C13", rep, tiers_quick=("u", "d1"), tiers_thorough=("u", "d1", "d2"), only_unions=True, negative={"nofloatfallback": "DispatchEqSequential"})
     rep.set("hierarchy_law_cases", hierarchy_law(rep))
+    rep.set("serialization_law_cases", serialization_law(rep))
     return rep.finish()
 
 
